@@ -176,6 +176,8 @@ def harness(ctx, exe, step_bytes_expected=None):
             ctx.violation(key, "a failure / retry path of keygen-sign leaves GMP integers allocated: live GMP blocks after rounds 1,2,3 of the same seed on the same objects = %s (scenario %s)" % (lives, name),
                           dict(ops=ops, gmp_live_blocks=lives, h2_fired=fired, how="drv_api level 1: feed the ops, read the 4th number of each `live` line"))
     ctx.coverage["retry_paths"] = retry
+    ctx.obligation("failure / retry paths are leak-free (H2 injection at 4 sites + seed corpus: live GMP blocks constant over identical rounds)",
+                   all(len(v["gmp_blocks"]) >= 3 and v["gmp_blocks"][2] <= v["gmp_blocks"][1] for v in retry.values()), json.dumps({k: v["gmp_blocks"] for k, v in retry.items()})[:500])
     # (E) ledger: k signatures on the same objects
     K = 3 if ctx.quick else 12
     ops = ["seed " + S1, "init 0", "siginit 0", "keygen 0", "live"]
